@@ -499,7 +499,9 @@ Definition fsm_next (n : node) (orc : oracle) (now : Z) : eval :=
                     | Ok true =>
                         if is_master n3 then Ok (n3, o1 ++ o3, Some DISTRIBUTION)
                         else match master_state n3 with
-                             | Some DISTRIBUTION => Ok (n3, o1 ++ o3, Some DISTRIBUTION)
+                             | Some DISTRIBUTION | Some OPERATION | Some CONCILIATION =>
+                                 (* the Master may already be beyond DISTRIBUTION *)
+                                 Ok (n3, o1 ++ o3, Some DISTRIBUTION)
                              | _ => bind (select_master n3) (fun r => Ok (fst r, o1 ++ o3 ++ snd r, Some ELECTION))
                              end
                     | Ok false => bind (select_master n3) (fun r => Ok (fst r, o1 ++ o3 ++ snd r, Some ELECTION))
